@@ -387,6 +387,7 @@ def _motion(ctx, prog):
         used_states = []
         # ---- distance test
         okd, whyd = False, fmt(D)
+        evid_d = False       # a recognised form with a wrong piece
         if len(dist_t) == 1:
             a_, rel, b_ = dist_t[0]
             if a_ is thr_d and rel in ("LtE", "Lt") and b_.op == "binop" \
@@ -399,6 +400,18 @@ def _motion(ctx, prog):
                     pe = per_element(acc.args[1][0])
                     acc_ok = pe is not None and pe[2] is poses and \
                         not pe[3]
+                    if not acc_ok:
+                        # the stacked poses sliced at once:
+                        # np.asarray(poses)[:, :3, 3]
+                        a0 = acc.args[1][0]
+                        acc_ok = a0.op == "sub" and is_call_to(
+                            a0.args[0], "numpy.asarray", "numpy.array") and \
+                            a0.args[0].args[1] and \
+                            a0.args[0].args[1][0] is poses and \
+                            a0.args[1] is T("tuple", T(
+                                "slice", tm.NONE, tm.NONE, tm.NONE), T(
+                                "slice", tm.NONE, const(3), tm.NONE),
+                                const(3))
                 prev_ok = False
                 if prev.op == "loopvar" and prev.args[1] == lid:
                     prev_ok = True
@@ -410,17 +423,53 @@ def _motion(ctx, prog):
                         used_states.append((ref, "index"))
                 okd = acc_ok and prev_ok and rel == "LtE"
                 if acc_ok and prev_ok and rel == "Lt":
+                    evid_d = True
                     whyd = "the distance test is strict (>): a pose at " \
                            "exactly the threshold is dropped"
-        ctx.ob("C11.2", f, okd,
-               f"[degrees={deg}] distance test: accumulated path since the "
-               f"last kept pose >= distance_threshold (inclusive)" if okd
-               else f"[degrees={deg}] distance accept test deviates: {whyd}",
-               key="C11.2:distance-test")
+                elif acc_ok and not prev_ok:
+                    evid_d = True
+                    whyd = (f"the accumulated path is compared relative to "
+                            f"{fmt(prev)[:60]}, not to the last kept pose")
+        if not okd and not evid_d and len(dist_t) == 1 and \
+                not any(is_call_to(x, ACCF, "numpy.cumsum", ".cumsum")
+                        for x in dist_t[0][2].walk()) and any(
+                    is_call_to(x, "numpy.linalg.norm") and x.args[1] and
+                    x.args[1][0].op == "binop" and
+                    x.args[1][0].args[0] == "Sub" and
+                    all(any(z is poses for z in y.walk())
+                        for y in x.args[1][0].args[1:])
+                    for x in dist_t[0][2].walk()):
+            evid_d = True
+            whyd = ("the distance compared with the threshold is the "
+                    "straight-line distance between two poses "
+                    "(np.linalg.norm of a position difference), not the "
+                    "path length accumulated since the last kept pose: on a "
+                    "curved or oscillating path poses are dropped that the "
+                    "property keeps")
+        if not okd and not evid_d:
+            ctx.undecidable("C11.2", f, f"[degrees={deg}] distance accept "
+                            f"test not recognised: {whyd[:160]}")
+        else:
+            ctx.ob("C11.2", f, okd,
+                   f"[degrees={deg}] distance test: accumulated path since the "
+                   f"last kept pose >= distance_threshold (inclusive)" if okd
+                   else f"[degrees={deg}] distance accept test deviates: {whyd}",
+                   key="C11.2:distance-test")
         # ---- angle test
         oka, whya = False, fmt(D)
+        evid_a = False
         if len(ang_t) == 1:
             a_, rel, b_ = ang_t[0]
+            if any(is_call_to(x, "numpy.cumsum", ".cumsum")
+                   for x in b_.walk()):
+                evid_a = True
+                whya = ("the angle compared with the threshold is a "
+                        "difference of accumulated frame-to-frame angles "
+                        "(np.cumsum): by the triangle inequality it exceeds "
+                        "the rotation relative to the last kept pose "
+                        "whenever the axis or the direction of rotation "
+                        "changes, so poses closer than the threshold are "
+                        "kept")
             want_thr = tm.call(tm.glob("numpy.deg2rad"), (thr_a_raw,)) \
                 if deg else thr_a_raw
             if rel in ("LtE", "Lt") and \
@@ -445,18 +494,29 @@ def _motion(ctx, prog):
                 oka = roles and ref is not None and a_ is want_thr and \
                     rel == "LtE"
                 if roles and ref is not None and a_ is not want_thr:
+                    evid_a = True
                     whya = (f"threshold is {fmt(a_)}, expected "
                             f"{fmt(want_thr)}")
                 elif roles and ref is not None and rel == "Lt":
+                    evid_a = True
                     whya = "the angle test is strict (>): a pose at " \
                            "exactly the threshold is dropped"
-        ctx.ob("C11.2", f, oka,
-               f"[degrees={deg}] angle test: rotation angle relative to the "
-               f"last kept pose >= angle threshold"
-               f"{' (converted once with deg2rad)' if deg else ''} "
-               f"(inclusive)" if oka else
-               f"[degrees={deg}] angle accept test deviates: {whya}",
-               key="C11.2:angle-test")
+                elif not (roles and ref is not None):
+                    evid_a = True
+                    whya = (f"the relative rotation is taken between "
+                            f"{fmt(r1)[:50]} and {fmt(r2)[:50]}, not between "
+                            f"the last kept pose and the current one")
+        if not oka and not evid_a:
+            ctx.undecidable("C11.2", f, f"[degrees={deg}] angle accept test "
+                            f"not recognised: {whya[:160]}")
+        else:
+            ctx.ob("C11.2", f, oka,
+                   f"[degrees={deg}] angle test: rotation angle relative to the "
+                   f"last kept pose >= angle threshold"
+                   f"{' (converted once with deg2rad)' if deg else ''} "
+                   f"(inclusive)" if oka else
+                   f"[degrees={deg}] angle accept test deviates: {whya}",
+                   key="C11.2:angle-test")
         # ---- every accept branch resets every reference state it relies on
         full = [c for c, _ in accepts]
         seen = set()
